@@ -6,7 +6,8 @@
 (* trace specifications in trace/).                                                *)
 (*                                                                                 *)
 (*  layer 1 - pure text:   Alphabet, SpansOps, OverlapsOps, LexerOps, CondenseOps,  *)
-(*                         PatternsOps, OrdinalOps, TitleCaseOps, PosConvOps        *)
+(*                         PatternsOps, OrdinalOps, TitleCaseOps, PosConvOps,       *)
+(*                         PosEncodingOps                                          *)
 (*  layer 2 - dictionaries: DictOps, (Spell, Dict)                                  *)
 (*  layer 3 - stateful components: LintGroup, ConfigOps, IgnoreOps, StatsLog,       *)
 (*                         DictFile, FileDictName, SourceFile, SegmentsOps            *)
@@ -25,6 +26,7 @@ Ig == INSTANCE IgnoreOps
 Po == INSTANCE PosConvOps
 Ef == INSTANCE EffectsOps
 Sg == INSTANCE SegmentsOps
+Pe == INSTANCE PosEncodingOps
 
 \* C01  a check request returns: every pattern honours the match contract, the lexer advances
 C01_MatchContract(p, toks) == Pa!Contract(p, toks, TRUE)
@@ -43,6 +45,9 @@ C03_Edit(kind, repl, s, e, before, after) == after = Sp!Apply(kind, repl, s, e, 
 \* C08  diagnostics and edits land on the flagged text
 C08_RangeCovers(t, s, e) == Po!RangeToSpan(t, Po!SpanToRange(t, s, e), TRUE) = <<s, e>>
 C08_ClientEdit(t, s, e, new) == Po!ClientApply(t, Po!SpanToRange(t, s, e), new) = Sp!Apply("ReplaceWith", new, s, e, t)
+\*      ... in the unit the server announced for the client's offer (UTF-16 when it announced none) -> PosEncoding, Trace_PosProto
+C08_Announce(offered, announced) == announced \in Pe!MayAnnounce(offered)
+C08_ClientEditIn(t, s, e, new, enc) == Pe!ClientApplyE(t, Pe!SpanToRangeE(t, s, e, enc), new, enc) = Sp!Apply("ReplaceWith", new, s, e, t)
 \* C09  the server's last word is the latest text          -> LspServer!LastWordUnlessOverlapped, ComesToRest
 \* C10  the text never leaves the machine
 C10_EffectAllowed(mode, e) == Ef!EffectOk(mode, e)
